@@ -224,8 +224,8 @@ def rule_t34(report, prog):
     report.check(okk, 'C03-R4', key(w.qname, 'wipe starts behind NLEN and is bounded by the capacity'), w.loc(),
                  'Type 4 wipe range changed')
     d = prog.func('nfc.tag.tt4.Type4Tag.NDEF._discover_ndef')
-    report.check(bool(find(d.node, 'self._capacity = mfs - tag + 2')) and bool(find(d.node, 'self._nlen_size = tag - 2')), 'C03-R4',
-                 key(d.qname, 'capacity = file size - NLEN size'), d.loc(), 'Type 4 capacity / NLEN size derivation changed')
+    from .c01 import rule_tt4_layout
+    rule_tt4_layout(report, prog, rule='C03-R4')
     f = prog.func('nfc.tag.tt3.Type3Tag.NDEF._write_ndef_data')
     okk = any(isinstance(l, ast.For) and norm(l.iter).startswith('range(1, last_block_number') for l in walk_no_nested(f.node)) and \
         bool(find(f.node, 'last_block_number = 1 + (len(data) + 15) // 16')) and \
